@@ -147,14 +147,14 @@ def cases(rng, n_each=8):
             out.append(dict(kind="modeselect10" if ten else "modeselect6", cls="ModeSelect10" if ten else "ModeSelect6",
                             pos=[data], kw=dict(pf=pf, sp=sp), check=chk))
         # ---- PERSISTENT RESERVE OUT
-        sa = rng.choice([0, 1, 2, 3, 4, 5, 6, 8])
+        sa = rng.choice([0, 0, 0, 0, 1, 2, 3, 4, 5, 6, 8])         # REGISTER often: it is the one that carries TransportIDs
         vals = dict(reservation_key=rand_value(rng, 64), service_action_reservation_key=rand_value(rng, 64),
                     all_tg_pt=rng.randrange(2), aptpl=rng.randrange(2))
         scope, typ = rng.randrange(16), rng.randrange(16)
         tids = []
-        if sa == 0 and rng.random() < 0.6:
+        if sa == 0 and rng.random() < 0.8:
             vals["spec_i_pt"] = 1
-            tids = [transport_id_dict(rng) for _ in range(rng.randint(0, 3))]
+            tids = [transport_id_dict(rng) for _ in range(rng.choice([0, 1, 1, 2, 3]))]
         kw = dict(vals)
         if tids:
             kw["transport_ids"] = [t[0] for t in tids]
